@@ -202,7 +202,76 @@ func genC05(t *rapid.T) c05Case {
 	return c
 }
 
-func init() { vRegister("C05", "c05.random", checkC05) }
+// ---------------------------------------------------------------------------
+// targeted: sums and orders that depend on the order of float additions / comparisons
+
+var c05Clusters = [][]string{
+	{"0.005", "0.01", "0.15"},          // sum lands on a rounding half
+	{"0.1", "0.3", "-0.4"},             // exact cancellation: 0.00 or -0.00
+	{"1", "1e16", "1"},                 // absorption above 2^53
+	{"0.100", "0.104", "0.108"},        // near ties, each < 0.005 apart, ends >= 0.005 apart
+	{"0.5", "0.504", "0.508", "0.512"}, // a longer chain of near ties
+	{"0.015", "0.025", "0.035", "0.045"},
+	{"2.675", "1.005", "0.125", "0.375"},
+	{"1e15", "0.3", "-1e15", "0.3"},
+	{"0.1", "0.2", "0.3", "0.7", "-1.3"},
+}
+
+func genC05Sums(t *rapid.T) c05Case {
+	plain := vLayout{Indent: "  ", Sep: ": ", EOL: "\n"}
+	cl := c05Clusters[rapid.IntRange(0, len(c05Clusters)-1).Draw(t, "cluster")]
+	n := rapid.IntRange(3, 9).Draw(t, "nrec")
+	names := vGenNamePool(t, false, n, "name")
+	var s vScenario
+	s.Exact = false
+	s.Basics = []string{"x", "y"}
+	day := vRec{Head: "2021/01/01", HL: vLayout{EOL: "\n"}}
+	day2 := vRec{Head: "2021/01/02", HL: vLayout{EOL: "\n"}}
+	for i, nm := range names {
+		if rapid.Bool().Draw(t, "aspath") {
+			nm = nm + "/" + []string{"a", "b", "c"}[rapid.IntRange(0, 2).Draw(t, "leaf")]
+			names[i] = nm
+		}
+		v := cl[rapid.IntRange(0, len(cl)-1).Draw(t, "v")]
+		if i < len(cl) {
+			v = cl[i] // make sure the whole cluster is present
+		}
+		lines := []vLine{{Kind: vkEntry, Name: "x", Num: v, L: plain}}
+		if rapid.Bool().Draw(t, "y") {
+			lines = append(lines, vLine{Kind: vkEntry, Name: "y", Num: cl[rapid.IntRange(0, len(cl)-1).Draw(t, "yv")], L: plain})
+		}
+		s.Book.Recs = append(s.Book.Recs, vRec{Head: nm, HL: vLayout{EOL: "\n"}, Lines: lines})
+		s.Recipes = append(s.Recipes, nm)
+		q := []string{"1", "1", "1", "2", "0.5"}[rapid.IntRange(0, 4).Draw(t, "q")]
+		if rapid.IntRange(0, 3).Draw(t, "day2") == 0 {
+			day2.Lines = append(day2.Lines, vLine{Kind: vkEntry, Name: nm, Num: q, L: plain})
+		} else {
+			day.Lines = append(day.Lines, vLine{Kind: vkEntry, Name: nm, Num: q, L: plain})
+		}
+	}
+	if n > 1 {
+		perm := rapid.Permutation(vIota(len(s.Book.Recs))).Draw(t, "decl")
+		nr := make([]vRec, len(perm))
+		for i, p := range perm {
+			nr[i] = s.Book.Recs[p]
+		}
+		s.Book.Recs = nr
+	}
+	s.Log = vDoc{Recs: []vRec{day, day2}}
+	s.Days = []int{0, 1}
+	return c05Case{S: s, MaxDepth: 10, Element: "x", Food: "."}
+}
+
+func init() {
+	vRegister("C05", "c05.random", checkC05)
+	vRegister("C05", "c05.sums", checkC05)
+}
+
+func TestVerifC05Sums(t *testing.T) {
+	vRapid(t, "C05", "c05.sums",
+		"targeted at float-order dependence: 3-9 recipes with distinct top-level names whose amounts of one element come from clusters chosen so that the printed result depends on the order of additions or comparisons (sums landing on a rounding half, exact cancellation, absorption above 2^53, chains of near ties < 0.005 apart), logged once each; the same 26 commands repeated 12/40 times; a difference between two runs is the violation",
+		vBudget(480, 4000), genC05Sums, checkC05)
+}
 
 func TestVerifC05Random(t *testing.T) {
 	vRapid(t, "C05", "c05.random",
